@@ -108,7 +108,38 @@ def case_trace(acc, seed, opnames):
     return tuple(objs[-1].__getstate__()[0])
 
 
-CASES = {"ctor": case_ctor, "trace": case_trace}
+def case_build_encoded(acc, host, user, password, port):
+    """URL.build(encoded=True) from separate parts (the pre-encoded builder trusts them verbatim)."""
+    acc.evals += 1
+    try:
+        u = impl.URL.build(scheme="http", user=user, password=password, host=host, port=port, path="/p", encoded=True)
+    except (ValueError, TypeError):
+        acc.count("rejected")
+        return None
+    except Exception:  # noqa: BLE001
+        acc.count("other_exception")
+        return None
+    acc.nontrivial += 1
+    compare(acc, "build_encoded", (host, user, password, port), u)
+    return tuple(u.__getstate__()[0])
+
+
+CASES = {"ctor": case_ctor, "trace": case_trace, "build_encoded": case_build_encoded}
+
+
+def task_build_encoded(maxlen, shard, quick=True):
+    QUICK[0] = quick
+    acc = Acc(ID, impl.backend)
+    states = set()
+    for w in A.shard_words(A.DELIM, maxlen, shard):
+        for user, password in ((None, None), ("u", None), ("u", "p"), ("", "")):
+            for port in (None, 80, 81):
+                st = case_build_encoded(acc, w, user, password, port)
+                if st is not None:
+                    states.add(st)
+    acc.state_count = len(states)
+    acc.sample({"build_encoded_host": w}, 1)
+    return acc.result()
 
 
 def state_invariant(acc, u, trace):
@@ -168,6 +199,8 @@ def plan(ctx):
                     tasks.append(("checks.C09", "task_ctor", (prefix, enc, kk, sh, quick), b, "c"))
         for part in range(8):
             tasks.append(("checks.C09", "task_hosts", (part, 8, quick), b, "h"))
+        for sh in A.shard_prefixes(A.DELIM, 2 if quick else 3, 1):
+            tasks.append(("checks.C09", "task_build_encoded", (2 if quick else 3, sh, quick), b, "be"))
     ctx.notes["bounds"] = {"delimiter_alphabet": A.DELIM, "max_word_length": "3 (4 for prefix '//' with auto-encoding)" if quick else k, "prefixes": PREFIXES, "bfs_depth": 2 if quick else 3}
     return tasks
 
